@@ -646,12 +646,14 @@ def r9_current_rule(res, facts):
             elif not invoked_by_call and not any('ELEMNAME_CALL_TEMPLATE' in pp(x) for x in walk(a['body'])):
                 r.violation('ElemTemplate::startElement: current template rule', 'the template pushes itself as the current template rule whatever invoked it: inside a template called '
                             'with xsl:call-template, xsl:apply-imports then searches the imports of the named template\'s stylesheet instead of those of the caller\'s rule', common.file_line(a, c))
-                return r
+                self_ok = keep_ok = None
             else:
                 self_ok = self_ok or not invoked_by_call
         elif 'getCurrentTemplate' in pp(arg):
             keep_ok = keep_ok or invoked_by_call
-    if self_ok and keep_ok:
+    if self_ok is None:
+        pass
+    elif self_ok and keep_ok:
         r.ok('ElemTemplate::startElement: pushes itself unless invoked by xsl:call-template, then the caller\'s rule')
     elif not pushes:
         r.violation('ElemTemplate::startElement: current template rule', 'no pushCurrentTemplate', common.file_line(a))
